@@ -24,7 +24,7 @@ sys.path.insert(0, os.path.dirname(os.path.dirname(os.path.abspath(__file__))))
 from vlib import *
 
 NAMES = ["a", "b", "c", "d"]
-REG_NAMES = [["cf", "abs"], ["ct", "odd"], ["cg", "range"]]
+REG_NAMES = [["cf", "abs", "kf", "cf3"], ["ct", "odd", "kt", "ct3"], ["cg", "range", "site", "kw"]]
 REG_API = [("add_filter", "remove_filter"), ("add_test", "remove_test"), ("add_function", "remove_global")]
 STEP_W = 19      # integers per step in a trace: result(2) + cur(8) + present(1) + other(8)
 
@@ -32,26 +32,29 @@ STEP_W = 19      # integers per step in a trace: result(2) + cur(8) + present(1)
 # ---------------------------------------------------------------------------------------------
 # readable form of sources and histories (mirrors harness/src/bin/c15.rs::src_text)
 def src_text(x):
-    k, p = x % 8, x // 8
-    which, v = p % 2, p // 2
+    k, p = x % 16, x // 16
     if k == 1: return "{{ %d }}{%% bad" % p
     if k == 2: return "{{ %d }}{%% for x in [1,2] %%}{%% set y %%}a{{ 1 // 0 }}{%% endset %%}{%% endfor %%}" % p
-    if k == 3: return "{{ %d|%s }}" % (v, REG_NAMES[0][which])
-    if k == 4: return "{{ 1 if %d is %s else 0 }}" % (v, REG_NAMES[1][which])
-    if k == 5: return "{{ %s(%d)|length }}" % (REG_NAMES[2][which], v)
     if k == 6: return "{%% for i in [1] %%}\\n{{ %d }}{%% endfor %%}" % p
     if k == 7: return "{%% if true %%}{{ %d }}{%% endif %%}\\n" % p
-    return "{{ %d }}" % p
+    return "{{ %s }}" % expr_text(x)
 
 
 def expr_text(x):
-    k, p = x % 8, x // 8
+    k, p = x % 16, x // 16
     which, v = p % 2, p // 2
     if k == 1: return "%d +" % p
     if k == 2: return "1 // 0"
     if k == 3: return "%d|%s" % (v, REG_NAMES[0][which])
     if k == 4: return "1 if %d is %s else 0" % (v, REG_NAMES[1][which])
     if k == 5: return "%s(%d)|length" % (REG_NAMES[2][which], v)
+    if k == 8: return "(site|string)|length"
+    if k == 9: return "(site|tojson)|length"
+    if k == 10: return "kw(q, %d, opt=1)" % p
+    if k == 11: return "q|kf(%d, opt=1)" % p
+    if k == 12: return "(data|tojson)|length"
+    if k == 13: return "(data|string)|length"
+    if k == 14: return "1 if q is kt(opt=1) else 0"
     return "%d" % p
 
 
@@ -70,10 +73,13 @@ def describe_step(s):
     if op == 5: return "clear_templates()"
     if op == 6: return "set_loader(loader#%d)" % a
     if op == 7: return "clock := %d" % a
-    if op == 8: return 'get_template("%s").render(ctx)' % n
+    if op == 8:
+        return 'get_template("%s").render(q=%d)%s%s' % (n, b % 4, " into a failing writer" if (b // 4) % 2 else "", " on a thread of its own" if (b // 8) % 2 else "")
     if op in (9, 10):
-        k = min(a // 2, 2)
-        rn = REG_NAMES[k][a % 2]
+        k = min(a // 4, 2)
+        rn = REG_NAMES[k][a % 4]
+        if rn == "site":
+            return ('add_global("site", container#%d)' % b) if op == 9 else 'remove_global("site")'
         return ('%s("%s", variant %d)' % (REG_API[k][0], rn, b)) if op == 9 else ('%s("%s")' % (REG_API[k][1], rn))
     if op == 11: return "clone; continue on the clone"
     if op == 12: return "clone; continue on the original"
@@ -109,11 +115,18 @@ def describe(case):
 # generators
 def rand_src(rng):
     r = rng.below(100)
-    if r < 30: return 8 * rng.below(40)                      # plain
-    if r < 48: return 1 + 8 * rng.below(40)                  # does not compile
-    if r < 58: return 2 + 8 * rng.below(40)                  # fails while rendering
-    if r < 88: return 3 + rng.below(3) + 8 * rng.below(64)   # uses a filter / test / global
-    return 6 + rng.below(2) + 8 * rng.below(40)
+    if r < 22: return 16 * rng.below(40)                      # plain
+    if r < 36: return 1 + 16 * rng.below(40)                  # does not compile
+    if r < 44: return 2 + 16 * rng.below(40)                  # fails while rendering
+    if r < 62: return 3 + rng.below(3) + 16 * rng.below(64)   # uses a filter / test / global function
+    if r < 70: return 6 + rng.below(2) + 16 * rng.below(40)   # whitespace-sensitive
+    if r < 80: return 8 + rng.below(2)                        # prints / serializes the global container
+    if r < 92: return rng.choice([10, 10, 11, 14]) + 16 * rng.below(8)   # Kwargs function / filter / test
+    return 12 + rng.below(2)                                  # serializes / prints a container of the context
+
+
+# registry slots worth touching: r = 4*kind + name
+REG_SLOTS = [0, 1, 2, 4, 5, 6, 8, 9, 10, 10, 11, 11]
 
 
 def rand_name(rng):
@@ -133,9 +146,9 @@ def rand_step(rng, used):
     if r < 31: return (5, 0, 0)
     if r < 38: return (6, rng.below(4), 0)
     if r < 47: return (7, rng.below(10), 0)
-    if r < 55: return (8, rand_name(rng), 0)
-    if r < 62: return (9, rng.below(6), 1 + rng.below(3))
-    if r < 66: return (10, rng.below(6), 0)
+    if r < 55: return (8, rand_name(rng), rng.choice([0, 0, 1, 1, 2, 3, 4, 5, 8, 9, 13]))
+    if r < 62: return (9, rng.choice(REG_SLOTS), 1 + rng.below(3))
+    if r < 66: return (10, rng.choice(REG_SLOTS), 0)
     if r < 71: return (11 + rng.below(2), 0, 0)
     if r < 76: return (13, 0, 0)
     if r < 81: return (22, rng.below(4), 0)
@@ -159,22 +172,29 @@ def gen(chk):
         ln = 1 + rng.below(40)
         hist.append(rand_history(rng, ln))
     # all histories up to a length over a reduced alphabet (one name, both tiers, failing adds, loader, clone)
-    alpha = [(0, 0, 40), (0, 0, 9), (1, 0, 48), (1, 0, 17), (4, 0, 0), (5, 0, 0), (6, 1, 0), (7, 1, 0),
-             (8, 0, 0), (11, 0, 0), (13, 0, 0), (9, 1, 2), (0, 0, 8 * 3 + 3),
-             (14, 0, 8 * 5 + 6), (17, 0, 40), (0, 0, 8 * 5 + 6), (22, 1, 0)]
+    alpha = [(0, 0, 80), (0, 0, 17), (1, 0, 96), (1, 0, 33), (4, 0, 0), (5, 0, 0), (6, 1, 0), (7, 1, 0),
+             (8, 0, 0), (11, 0, 0), (13, 0, 0), (9, 1, 2), (0, 0, 16 * 3 + 3),
+             (14, 0, 16 * 5 + 6), (17, 0, 80), (0, 0, 16 * 5 + 6), (22, 1, 0)]
+    # second family: renders that could leave traces (Kwargs call sites, containers that fail to serialize,
+    # failing writers, other threads), different contexts through the same stored template
+    alpha2 = [(1, 0, 10 + 16 * 5), (0, 1, 8), (0, 2, 9), (0, 3, 12), (9, 11, 1), (9, 11, 2), (9, 10, 1), (9, 10, 2),
+              (8, 0, 0), (8, 0, 1), (8, 0, 9), (8, 2, 0), (8, 1, 4), (11, 0, 0)]
     maxlen = 4 if chk.thorough else 3
-    ex = [[]]
     exhaustive = []
-    for _ in range(maxlen):
-        ex = [h + [s] for h in ex for s in alpha]
-        exhaustive += ex
+    for al in (alpha, alpha2):
+        ex = [[]]
+        for _ in range(maxlen):
+            ex = [h + [s] for h in ex for s in al]
+            exhaustive += ex
+    alpha = alpha + alpha2
     return hist, exhaustive, alpha, maxlen
 
 
 # ---------------------------------------------------------------------------------------------
 # the fresh environment a step's predicted contents describe
-ENV_W = 17       # integers per environment in a contents line: src[4] cfg[4] loader now regs[6] cfg
-INITIAL = (-1, -1, -1, -1, -1, -1, -1, -1, -1, 0, -1, 0, -1, 0, -1, 0, 0)
+ENV_W = 23       # integers per environment in a contents line: src[4] cfg[4] loader now regs[12] cfg
+INITIAL = (-1, -1, -1, -1, -1, -1, -1, -1, -1, 0) + (-1, 0, -1, -1) * 3 + (0,)
+CFG_I = 22
 
 
 def parse_contents(line, nsteps):
@@ -198,12 +218,12 @@ def parse_contents(line, nsteps):
 def fresh_history(cont, then=None):
     """Builds the environment the contents describe (each template is added under the configuration it
     is held with; the current configuration is set last), optionally followed by one more step."""
-    tpl, tcfg, loader, now, regs, cfg = cont[0:4], cont[4:8], cont[8], cont[9], cont[10:16], cont[16]
+    tpl, tcfg, loader, now, regs, cfg = cont[0:4], cont[4:8], cont[8], cont[9], cont[10:22], cont[22]
     steps = [(7, now, 0)]
     if loader >= 0:
         steps.append((6, loader, 0))
-    for r in range(6):
-        initial = 0 if r % 2 == 1 else -1
+    for r in range(12):
+        initial = 0 if r % 4 == 1 else -1
         if regs[r] == initial:
             continue
         steps.append((10, r, 0) if regs[r] < 0 else (9, r, regs[r]))
@@ -420,6 +440,14 @@ def main():
             cont = r["contents"][i][k][0]
             if s[0] in (8, 15) and k > 0 and cont[s[1] % 4] >= 0 and r["contents"][i][k - 1][0][s[1] % 4] < 0:
                 events["renders that obtained a source from the loader and pinned it"] += 1
+            if s[0] == 8:
+                if (s[2] // 4) % 2: events["renders into a failing writer"] += 1
+                if (s[2] // 8) % 2: events["renders on a thread of their own"] += 1
+                if s[2] % 4: events["renders with a context other than the observation's (q != 0)"] += 1
+                if line[0] == 1 and line[1] == 6: events["renders failing in assert_all_used of a Kwargs function/filter/test"] += 1
+                if line[0] == 1 and line[1] == 19: events["renders failing in the sink"] += 1
+            if s[0] in (8, 14, 16, 17, 18, 19, 20) and line[0] == 1 and line[1] == 3:
+                events["renders failing at run time (InvalidOperation: 1 // 0, tojson of a non-string key)"] += 1
             if s[0] in ADHOC:
                 events["ad-hoc operations (render_named_str, render_str, template_from_*, compile_expression*, undeclared_variables)"] += 1
                 before = r["contents"][i][k - 1][0] if k else INITIAL
@@ -428,11 +456,11 @@ def main():
                         events["ad-hoc operations named like a stored template"] += 1
                         if before[s[1]] == s[2]:
                             events["... with the very same source"] += 1
-                            if before[4 + s[1]] != before[16]:
+                            if before[4 + s[1]] != before[CFG_I]:
                                 events["... stored under a configuration that has changed since"] += 1
                     elif before[8] >= 0:
                         events["ad-hoc operations named like a template only the loader could serve"] += 1
-            if s[0] == 22 and k > 0 and r["contents"][i][k - 1][0][16] != s[1] % 4 and any(x >= 0 for x in cont[0:4]):
+            if s[0] == 22 and k > 0 and r["contents"][i][k - 1][0][CFG_I] != s[1] % 4 and any(x >= 0 for x in cont[0:4]):
                 events["configuration changes while templates are held"] += 1
             if s[0] == 7 and cont[8] >= 0 and k > 0 and r["contents"][i][k - 1][0][9] != s[1] and any(x >= 0 for x in cont[0:4]):
                 events["clock changes while a loader is set and templates are held"] += 1
